@@ -132,6 +132,13 @@ class Ctx(object):
         else:
             self.violation(witness, mechanism=fid)
 
+    def is_open(self, fid):
+        """True while known_findings.json lists fid as an OPEN finding of this property. Classifiers use it to stop
+        applying the deviation rule of a finding that has been fixed: what that rule would have explained must then be
+        explained by another open rule or be reported as a violation."""
+        e = self.known.get(fid)
+        return e is not None and e.get('status') == 'open' and e.get('property') == self.pid
+
     def inconclusive_if(self, cond, reason):
         if cond: self.inconclusive.append(reason)
 
@@ -187,6 +194,8 @@ class Ctx(object):
             'samples': self.samples or ['<none>'],
             'monitor_counters': dict(sorted(self.counters.items())),
             'known_findings_reproduced': {k: v['count'] for k, v in sorted(self.known_hits.items())},
+            # first witness of every listed finding this run reproduced (what the classifier accepted as known)
+            'known_finding_witnesses': {k: _clip(v['witness']) for k, v in sorted(self.known_hits.items())},
             'verdict': 'violated' if nviol else ('inconclusive' if self.inconclusive else 'held_on_observed'),
             'inconclusive_reasons': self.inconclusive[:20],
             'shards': self.nshards,
@@ -228,6 +237,12 @@ class Ctx(object):
               % (self.pid, self.tier, self.seed, coverage['verdict'], self.evaluations, len(self.fps), wall,
                  json.dumps(coverage['monitor_counters'])[:900]))
         return code
+
+
+def _clip(w, limit=6000):
+    """witness of a known finding for the evidence file, bounded in size"""
+    t = json.dumps(jsonable(w), sort_keys=True, default=repr)
+    return json.loads(t) if len(t) <= limit else {'clipped_json': t[:limit]}
 
 
 def run_sharded(modname, pid, level, tier, seed, nshards, timeout_s):
